@@ -162,6 +162,7 @@ def run(ctx):
                 meta[tid] = case
                 if k == 1 and variant == 0:
                     ctx.sample(dict(case, events=[f"{e['role']}:{e['ev']}" for e in sched.log][:40]), limit=4)
+    last_record_without_newline(ctx, rng)
     real_runs(ctx, rng)
     replay_tlc_behaviours(ctx, rng)
     verdicts = RC.validate_traces(ctx, records)
@@ -235,6 +236,48 @@ def replay_tlc_behaviours(ctx, rng):
     ctx.extra["tlc_behaviours_replayed"] = done
     ctx.extra["tlc_behaviours_diverged"] = diverged
     ctx.extra["tlc_behaviour_divergence_examples"] = examples
+
+
+def last_record_without_newline(ctx, rng):
+    """Inputs whose last record is not followed by a newline (legal FASTQ), with buffer sizes of a few records:
+    the last chunk then sometimes consists of that record alone."""
+    n_inputs = 2 if ctx.quick else 12
+    runs = 0
+    for k in range(n_inputs):
+        paired = k % 2 == 0
+        reads, reads2 = make_reads(rng, rng.randint(8, 16), paired)
+        d1 = fastq_bytes(reads)
+        inputs = {"in1.fastq": d1[:-1] if (not paired or rng.random() < 0.5) else d1}
+        infiles = ["in1.fastq"]
+        if paired:
+            d2 = fastq_bytes(reads2)
+            inputs["in2.fastq"] = d2[:-1] if inputs["in1.fastq"] == d1 or rng.random() < 0.5 else d2
+            infiles.append("in2.fastq")
+        opts = ["-a", AD1] + (["-A", AD2, "-o", "o1.fastq", "-p", "o2.fastq"] if paired else ["-o", "out.fastq"])
+        base = opts + ["--json", "rep.json"] + infiles
+        ser = run_cli(base, inputs, os.path.join(ctx.scratch, "ser"))
+        if ser.exit != 0:
+            raise RuntimeError(f"serial baseline failed for input without final newline: {ser.errors} {ser.exception!r}")
+        longest = max(len(r[0]) + 2 * len(r[1]) + 6 for r in reads + reads2)
+        for bs in sorted(rng.sample(range(longest + 10, 4 * longest), 6 if ctx.quick else 25)):
+            nw = rng.choice((2, 3))
+            seed = rng.randrange(10**9)
+            argv = ["-j", str(nw), "--buffer-size", str(bs)] + base
+            par, sched = RC.run_virtual(argv, inputs, os.path.join(ctx.scratch, "par"), vmp.RandomPolicy(seed, None, True))
+            runs += 1
+            case = dict(option_set="no-final-newline" + ("-paired" if paired else ""), argv=argv, policy=f"random(seed={seed})", nw=nw,
+                        n_reads=len(reads))
+            rcase = dict(case, base=base, policy_params=dict(seed=seed, weights=None, ready_subsets=True),
+                         inputs={f: base64.b64encode(d).decode() for f, d in inputs.items()})
+            if sched.deadlock or isinstance(par, Exception):
+                ctx.violation("TerminatesUnderEverySchedule", "C06:deadlock:no-final-newline", dict(case, deadlock=sched.deadlock), case=rcase)
+                continue
+            for clause, detail in compare(ser, par):
+                sig = f"C06:{clause}:{case['option_set']}"
+                if clause == "ExitStatusEqualsSerial" and paired and "Premature end of paired-end input" in json.dumps(detail):
+                    sig = "C06:ExitStatusEqualsSerial:paired-input-last-record-without-newline-alone-in-the-last-chunk"
+                ctx.violation(clause, sig, dict(case, detail=detail), case=rcase)
+    ctx.extra["runs_on_inputs_without_final_newline"] = runs
 
 
 class _P:
@@ -339,5 +382,8 @@ def replay(ctx, path):
     if isinstance(par, Exception):
         raise par
     for clause, detail in compare(ser, par):
-        ctx.violation(clause, f"C06:{clause}:{oname}", dict(brief, detail=detail))
+        sig = f"C06:{clause}:{oname}"
+        if clause == "ExitStatusEqualsSerial" and oname == "no-final-newline-paired" and "Premature end of paired-end input" in json.dumps(detail):
+            sig = "C06:ExitStatusEqualsSerial:paired-input-last-record-without-newline-alone-in-the-last-chunk"
+        ctx.violation(clause, sig, dict(brief, detail=detail))
     print(f"replay: {' '.join(case['argv'])} re-executed under {case['policy']}: {len(ctx.violations)} clause(s) rejected")
